@@ -167,6 +167,7 @@ type vfPipeInfo struct {
 	Names       []string
 	MQTT        bool
 	DanglingNS  bool // a flow node uses a namespace nobody put a request into
+	UsesNS      bool // some flow node runs in a non-default namespace
 	HasFlow     bool
 	PolicyNames []string
 }
@@ -189,6 +190,12 @@ func vfGenPipelineBody(g *vfG, prefix string, maxFilters int, allowMQTT bool) (m
 			ki = 0 // Proxy (or ConnectControl): the kind with cross references
 		}
 		kn := pool[ki]
+		if vfSteerVF != nil && ((kn == "Kafka" && vfSteerVF.HasKnown(vfKeyKafkaEmpty)) || (kn == "KafkaMQTT" && vfSteerVF.HasKnown(vfKeyKafkaMQTTEmpty))) &&
+			g.chance(prefix+"filters[]", "steer-kafka", 85) {
+			// no broker in the sandbox: a Kafka filter can only fail Init here (known finding / environment)
+			vfSteerVF.Exclude()
+			kn = pool[1]
+		}
 		name := fmt.Sprintf("f%d", i+1)
 		if g.chance(prefix+"filters[]", "dup-name", 2) {
 			name = "f1"
@@ -270,12 +277,15 @@ func vfGenPipelineBody(g *vfG, prefix string, maxFilters int, allowMQTT bool) (m
 				ns = "ns1"
 				builderNS[ns] = true
 				m["namespace"] = ns
+				info.UsesNS = true
 				g.present[prefix+"flow[].namespace"] = true
 			} else if ns != "" && g.chance(prefix+"flow[].namespace", "use", 50) {
 				m["namespace"] = ns
+				info.UsesNS = true
 			} else if g.chance(prefix+"flow[].namespace", "dangling", 3) {
 				m["namespace"] = "nsX"
 				info.DanglingNS = true
+				info.UsesNS = true
 				g.bounds["namespace:without-request"] = true
 			} else if g.chance(prefix+"flow[].namespace", "explicit-default", 5) {
 				m["namespace"] = "DEFAULT"
@@ -335,7 +345,11 @@ func (r *vfRunner) fail(defaultKind, phase, text, site, filterKind, extra string
 		return true // no Kafka broker in the sandbox: environment, not a violation
 	}
 	key := vfKey2(kind, site, text)
-	if info != nil && info.DanglingNS && (strings.Contains(text, "interface conversion") || strings.Contains(text, "nil pointer")) && phase == "Handle" {
+	// A filter that runs in a non-default namespace finds no request there when nobody put one in
+	// (no RequestBuilder before it, a RequestBuilder in sourceNamespace mode with nothing to copy, or
+	// a jump over the builder): one input class, whatever filter kind happens to trip over it.
+	if info != nil && info.UsesNS && phase == "Handle" &&
+		(strings.Contains(text, "protocols.Request is nil") || (strings.Contains(text, "nil pointer") && strings.HasSuffix(site, ".Handle"))) {
 		key = "flow-node-namespace-without-request panic=" + vfClass(text)
 	}
 	return vfReport(r.vf, r.rt, key, fmt.Sprintf("%s panicked during %s: %s\naccepted spec:\n%s%s", kind, phase, text, r.yaml, extra))
@@ -395,10 +409,12 @@ func TestVerifC13Pipeline(t *testing.T) {
 	defer vf.End()
 	env := vfGetEnv(t)
 	vfCheckKindCoverage(t, vf)
+	vfSteerVF = vf
 	defer vfDumpDiscovered(t)
 	rapid.Check(t, func(rt *rapid.T) {
 		g := vfNewG(rt, env.pools)
 		body, info := vfGenPipelineBody(g, "", 4, true)
+		vfSteerPipeline(vf, g, body)
 		if info.DanglingNS && vf.HasKnown("flow-node-namespace-without-request panic=interface conversion") && vfChance(rt, "steer-away-from-known", 80) {
 			// known finding: steer away by construction most of the time (still produced sometimes,
 			// so that a fix makes the class green instead of invisible)
@@ -490,6 +506,7 @@ func TestVerifC13GlobalFilter(t *testing.T) {
 	vf := vfBegin(t, "C13")
 	defer vf.End()
 	env := vfGetEnv(t)
+	vfSteerVF = vf
 	defer vfDumpDiscovered(t)
 	rapid.Check(t, func(rt *rapid.T) {
 		g := vfNewG(rt, env.pools)
@@ -498,6 +515,7 @@ func TestVerifC13GlobalFilter(t *testing.T) {
 		for _, side := range []string{"beforePipeline", "afterPipeline"} {
 			if g.chance(side, "present", 70) {
 				body, info := vfGenPipelineBody(g, side+".", 2, false)
+				vfSteerPipeline(vf, g, body)
 				if !info.HasFlow && g.chance(side, "force-flow", 80) {
 					// without a flow the section is ignored by GlobalFilter: give it the default order
 					fl := []interface{}{}
@@ -520,11 +538,12 @@ func TestVerifC13GlobalFilter(t *testing.T) {
 			return
 		}
 		vf.Class("accepted")
-		dangling := false
+		dangling, usesNS := false, false
 		for _, i := range infos {
 			dangling = dangling || i.DanglingNS
+			usesNS = usesNS || i.UsesNS
 		}
-		info := vfPipeInfo{DanglingNS: dangling}
+		info := vfPipeInfo{DanglingNS: dangling, UsesNS: usesNS}
 		gf := obj.(*globalfilter.GlobalFilter)
 		dk := "globalfilter|" + strings.Join(g.Present(), ",") + "|" + strings.Join(g.Bounds(), ",")
 		if pn, txt, site, fk := vfRecoverRoot(func() { gf.Init(spec) }); pn {
